@@ -55,6 +55,7 @@ def run(rep: Report, tier: str) -> None:
 	rule_range_arguments(rep, pm, tm)
 	rule_initializer_conversion(rep, pm)
 	rule_fill_list_roles(rep, pm)
+	rule_string_requoted(rep, idx, pm, tm)
 
 
 # ---- (a) precedence ---------------------------------------------------------------------------------------------------
@@ -759,3 +760,39 @@ def rule_fill_list_roles(rep, pm) -> None:
 				if n.attr in ('left', 'right', 'first', 'last') and isinstance(n.value, ast.Name) and n.value.id == 'node':
 					bad.append(n)
 		r.check(not bad, f'{f.name}:positional-operand', s_.where, f'{f.name} reads `{unparse(bad[0])[:60] if bad else ""}`: a fixed position of the operator node, while the caller accepts the list on either side; for `n * [v]` the flag / value describes the size operand, and the list is emitted without its fill value (`std::vector<T>(n)`: n zero-initialised elements)', unparse(bad[0])[:80] if bad else '')
+
+
+def rule_string_requoted(rep: Report, idx: SourceIndex, pm: Py2CppModel, tm: TemplateModel) -> None:
+	"""A Python string literal may be written between single or double quotes; the C++ literal is always written between double quotes. The body of a
+	single-quoted literal may contain an unescaped `"` (`'say "hi"'`): pasted verbatim between double quotes it ends the C++ literal early. The handler
+	must hand over a body converted for the new delimiter, or the template must look at the original delimiter."""
+	r = rep.rule('C01/string-literal-body-fits-its-quotes', 'a string literal emitted between double quotes has a body that was converted for that delimiter (handler-side conversion or a delimiter test in literal/string.j2), not the body as written between single quotes', floor=1)
+	f = pm.methods.get('on_string')
+	if f is None or 'literal/string' not in tm.asts:
+		r.skip('literal/string', (PY2CPP, 1), 'Py2Cpp.on_string or literal/string.j2 vanished')
+		return
+	vars_ = [s.vars_expr for s in pm.render_sites() if s.func is f and isinstance(s.vars_expr, ast.Dict)]
+	if len(vars_) != 1:
+		r.skip('literal/string', f.where, 'on_string does not render with one literal vars dict')
+		return
+	handed = {const_str(k): v for k, v in zip(vars_[0].keys, vars_[0].values) if k is not None}
+	verbatim = {k for k, v in handed.items() if unparse(v).endswith('.tokens')}
+	N = tm.nodes
+	tree = tm.flat('literal/string')
+	outs = list(tree.find_all(N.Output))
+	tests = [n for n in tree.find_all((N.If, N.CondExpr))]
+	pasted = []
+	for o in outs:
+		quoted = any(isinstance(p_, N.TemplateData) and '"' in p_.data for p_ in o.nodes)
+		for p_ in o.nodes:
+			if isinstance(p_, N.Getitem) and isinstance(p_.node, N.Name) and p_.node.name in verbatim and isinstance(p_.arg, N.Slice) and quoted:
+				pasted.append(p_.node.name)
+	delimiter_aware = any(isinstance(x, N.Getitem) and isinstance(x.node, N.Name) and x.node.name in verbatim and isinstance(x.arg, N.Const) and x.arg.value == 0 for t in tests for x in t.test.find_all(N.Getitem))
+	if not verbatim:
+		r.ok('literal/string', f.where, message=f'on_string converts the literal before rendering ({ {k: unparse(v)[:40] for k, v in handed.items()} })')
+	elif pasted and not delimiter_aware:
+		r.violate('literal/string', (tm.relpath('literal/string'), 1), f'on_string hands the literal as written (`{pasted[0]}` = node.tokens) and literal/string.j2 pastes `{pasted[0]}[1:-1]` between double quotes whatever the original delimiter was: `s = \'say "hi"\'` is emitted `std::string s = "say "hi"";`, which no C++ compiler accepts (an escaped quote `\'it\\\'s\'` happens to stay valid)', tm.sources['literal/string'].strip()[:80])
+	elif pasted:
+		r.ok('literal/string', (tm.relpath('literal/string'), 1), message='the template tests the original delimiter')
+	else:
+		r.skip('literal/string', (tm.relpath('literal/string'), 1), 'literal/string.j2 no longer pastes a slice of the handed value between double quotes')
